@@ -144,7 +144,7 @@ class Check:
 
     def counterexample(self, signature: str, what: str, replay: Dict[str, Any]):
         """A counterexample that HAS ALREADY been replayed on the real code in plain Python."""
-        self.findings.append(Finding(signature, what, replay))
+        self.findings.append(Finding(signature.replace('\n', ' '), str(what).replace('\n', ' // '), replay))
 
     # -- finish ------------------------------------------------------------
     def _write_replay(self, f: Finding) -> str:
